@@ -20,11 +20,12 @@ LEVEL = 'exploration'
 TECHNIQUE = 'runtime monitoring: dot-product (adjoint) identity checked on the real fwd/rev operators of generated models'
 RULE = ('random model specs (see C01) x random seed vectors; operators: total jacvec products, apply_linear and '
         'solve_linear of the root and of every sub-group; distinct = (wiring features, solver stack, operator); '
-        'non-trivial = operator is not the identity (model has connections with indices/units or a loop)')
+        'non-trivial = operator is not the identity (model has connections with indices/units or a loop); every '
+        'third spec carries random ref/ref0/res_ref solver scaling (total operator judged only)')
 MIN_JUDGED = {'quick': 120, 'thorough': 3000}
 REQUIRED_COUNTERS = ['obs:jacvec-duality', 'obs:apply_linear-duality', 'obs:solve_linear-duality',
                      'obs:subgroup-operators', 'obs:repeated-src_indices-model', 'obs:matfree-model',
-                     'obs:assembled-model']
+                     'obs:assembled-model', 'obs:scaled-model-total-operator']
 ASSUMPTIONS = ['linear solves are judged only when no linear solver reported non-convergence',
                'tolerance: 1e-10 * (|w||Av| + |A^T w||v|) for products, 1e-7 relative for iterative solves']
 SHARD_TIMEOUT = {'quick': 1200, 'thorough': 5400}
@@ -52,8 +53,11 @@ def run_case(case, acc):
     from omv.gen import models as G
     from omv.ref.flatmodel import FlatModel
     rng = random.Random(case['seed'])
-    spec = G.gen_spec(rng, dict(OPTS))
+    scaled = case['seed'] % 3 == 0
+    spec = G.gen_spec(rng, dict(OPTS, p_scaling=0.6) if scaled else dict(OPTS))
     feats = spec_features(spec)
+    if scaled:
+        feats = feats + ['solver-scaling']
     cfs = [conn_features(spec, cn) for cn in spec['conns']]
     tainted = any('KNOWN-nd-nonflat-single-index' in f for f in cfs)
     nr = np.random.default_rng(case['seed'])
@@ -103,9 +107,14 @@ def run_case(case, acc):
                 if not abs(lhs - rhs) <= tol:
                     bad.append(('jacvec', abs(lhs - rhs), tol))
             # ---- group operators (rev-mode problem has both transfer directions) ---------------
+            # (not with solver scaling: run_apply_linear/run_solve_linear take and return vectors in the
+            #  forward scaling convention, in which the rev operator is not the plain transpose; the total
+            #  operator above is the scaling-independent observable)
             p = probs['rev']
             p.model.run_linearize()
-            for g in _groups(p.model):
+            if scaled:
+                acc.count('obs:scaled-model-total-operator')
+            for g in ([] if scaled else _groups(p.model)):
                 label = 'root' if g.pathname == '' else 'subgroup'
                 # a parent's DirectSolver does not linearize the linear solvers below it: linearize the
                 # group itself before driving its own solve_linear
